@@ -39,7 +39,8 @@ def modelled : List (String × String) := [
   ("CommitteeColdCredential", "Model/Gov.lean"),
   ("DRep", "Model/Gov.lean"), ("Voter", "Model/Gov.lean"),
   ("VotingProcedure", "Model/Gov.lean"), ("GovActionId", "Model/Gov.lean"), ("PoolId", "Model/Pool.lean"),
-  ("PoolRegistration", "Model/Pool.lean"), ("SingleHostAddr", "Model/Pool.lean"),
+  ("PoolRegistration", "Model/Pool.lean"), ("PoolParams", "Model/Pool.lean (postInit: relays None -> [])"),
+  ("SingleHostAddr", "Model/Pool.lean"),
   ("SingleHostName", "Model/Pool.lean"), ("MultiHostName", "Model/Pool.lean"),
   ("AlonzoMetadata", "Model/Metadata.lean"), ("AuxiliaryData", "Model/Metadata.lean"),
   ("ShelleyMarryMetadata", "Model/Metadata.lean"),
